@@ -60,6 +60,8 @@ struct ep_state {
   uint64_t n_global_stores, n_min_stores, n_entered_stores;
   uint64_t trimmed_for;  /* ghost: first element of the list the chain was last trimmed against (RemoveOutDatedLists) */
   uint64_t nodes_allocated, nodes_freed;
+  size_t scan_slot; _Bool scan_alive;   /* ghost: slot whose heartbeat the coordinator tested last, and the outcome */
+  _Bool v_just;              /* ghost: the skolem value EP.v was loaded as the pin of a slot found alive in this scan */
   _Bool last_global_acq;     /* ghost: the worker's last read of the global epoch was an acquire operation */
   uint64_t new_node_upper;   /* ghost: range and successor of the list node allocated last */
   void *new_node_next;
